@@ -142,6 +142,28 @@ Definition run_peq (e : Z) (a : list Z) : option (list Z) :=
     | None => None end
   else None.
 
+Definition run_views (e : Z) (a : list Z) : option (list Z) :=
+  if e =? 201 then
+    match dnested a with
+    | Some (ts, _) =>
+        let enc := fun s : statetraj =>
+          eZs (st_states s) ++ enested (index_trajs s) ++ eres enested (trajs s)
+          ++ [Z.of_nat (ntrajs s); Z.of_nat (nframes s); Z.of_nat (nstates s)] in
+        Some (eres enc (mk ts) ++ enc (mk_spec ts))
+    | None => None end
+  else if e =? 202 then
+    match dpair dnested dnested a with
+    | Some ((macro, micro), _) =>
+        Some (eres (fun l : lumped =>
+                eres enested (lumped_trajs l) ++ eres enested (trajs (lu_micro l))
+                ++ eZs (lu_assign l) ++ eZs (lu_macrostates l) ++ eZs (st_states (lu_micro l))
+                ++ enested (index_trajs (lu_micro l))
+                ++ eres enested (bind (assign_idx l) (fun ai =>
+                     shift_nested (index_trajs (lu_micro l)) (arange (nstates (lu_micro l))) (map Z.of_nat ai))))
+              (mk_lumped macro micro false))
+    | None => None end
+  else None.
+
 Definition run (req : list Z) : list Z :=
   match req with
   | [] => malformed
@@ -163,6 +185,9 @@ Definition run (req : list Z) : list Z :=
       | None =>
       match run_peq e a with
       | Some r => r
+      | None =>
+      match run_views e a with
+      | Some r => r
       | None => malformed
-      end end end end end end
+      end end end end end end end
   end.
